@@ -215,6 +215,10 @@ def cases(tier):
             out.append(("ew", op, S_, sh, False))               # scalar element op array
             out.append(("ewnum", op, sh, "right", False))       # array op 2.5
             out.append(("ewnum", op, sh, "left", False))        # 2.5 op array
+            for inner in ("add", "sub", "mul", "div"):           # array op (compound scalar expression), both positions
+                if sh in shapes[::2] or inner == "add":
+                    out.append(("ewexpr", op, sh, ("right", inner), False))
+                    out.append(("ewexpr", op, sh, ("left", inner), False))
             if sh[-1]:
                 out.append(("ew", op, sh, sh, True))            # same shape, different names -> reject
         # mismatched shapes of the same rank
@@ -268,7 +272,7 @@ def build(case, sym, env=None):
     if kind in ("ew", "dot", "ew2"):
         B = setup(m, "B", sb, alt)
     C = setup(m, "C", sa) if kind == "ew2" else None
-    Sx = setup(m, "S", ("s",)) if kind in ("aggop", "dotop") else None
+    Sx = setup(m, "S", ("s",)) if kind in ("aggop", "dotop", "ewexpr") else None
     for nm, sh, al in (("A", sa, False), ("B", sb, alt), ("C", sa, False), ("S", ("s",), False)):
         if (nm == "B" and B is None) or (nm == "C" and C is None) or (nm == "S" and Sx is None):
             continue
@@ -293,6 +297,10 @@ def build(case, sym, env=None):
             rs, rkeys = (na if na != () else nb), keys_of(sa if sa[0] != "s" else sb)
         elif kind == "ewnum":
             ref = elementwise(op, a, num, na, ()) if sb == "right" else elementwise(op, num, a, (), na)
+            rs, rkeys = na, keys_of(sa)
+        elif kind == "ewexpr":
+            sc = OPS[sb[1]](get("S"), 0.5)
+            ref = elementwise(op, a, sc, na, ()) if sb[0] == "right" else elementwise(op, sc, a, (), na)
             rs, rkeys = na, keys_of(sa)
         elif kind == "dot":
             if (sa[0] != "s" and sa[-1]) or (sb[0] != "s" and sb[-1]):
@@ -334,6 +342,8 @@ def build(case, sym, env=None):
             R.equation = OPS[op](A, B)
         elif kind == "ewnum":
             R.equation = OPS[op](A, num) if sb == "right" else OPS[op](num, A)
+        elif kind == "ewexpr":
+            R.equation = OPS[op](A, OPS[sb[1]](Sx, 0.5)) if sb[0] == "right" else OPS[op](OPS[sb[1]](Sx, 0.5), A)
         elif kind == "dot":
             R.equation = A.dot(B)
         elif kind == "agg":
